@@ -76,10 +76,25 @@ def _trace_of(md):
 
 
 def _defs(md, key):
+    """which frames define `key` right now.  For an InstanceDict the source is the client object itself (what it has cached
+    it keeps serving; otherwise the object is asked, through the guard, without going through the InstanceDict)"""
+    from DocumentTemplate._DocumentTemplate import InstanceDict
     out = []
     for fr in md._data:
+        r = raw(fr)
         try:
-            raw(fr)[key]
+            if type(r) is InstanceDict and isinstance(key, str) and key and key not in r.cache:
+                if key[0] == '_':
+                    out.append('y' if key == '__str__' else 'n')
+                    continue
+                get = r.guarded_getattr or getattr
+                try:
+                    get(r.inst, key)
+                    out.append('y')
+                except AttributeError:
+                    out.append('n')
+                continue
+            r[key]
             out.append('y')
         except _MISS:
             out.append('n')
@@ -184,6 +199,49 @@ def pytest_sessionfinish(session, exitstatus):
 
 # ---- program: trace DTRender cases ---------------------------------------------------------------
 
+class Lazy:
+    """a client whose attributes appear while the template is rendered (a lazily loading object)"""
+
+    def __init__(self, **later):
+        self._later = later
+
+    def load(self):
+        self.__dict__.update(self._later)
+        return ''
+
+
+DYNAMIC = [
+    # (source, how the namespace is built): a name first resolves from a lower source, then the client acquires it
+    ('<dtml-var n>|<dtml-call load>|<dtml-var n>|<dtml-if n>i</dtml-if>', 'client'),
+    ('<dtml-var n>|<dtml-var n>|<dtml-call load><dtml-var n>', 'client'),
+    ('<dtml-var n>|<dtml-call load>|<dtml-var n>', 'tuple'),
+    ('<dtml-with o><dtml-var n>|<dtml-call load>|<dtml-var n></dtml-with>|<dtml-var n>', 'with'),
+    ('<dtml-in l><dtml-var n>|<dtml-call load>|<dtml-var n>;</dtml-in><dtml-var n>', 'in'),
+    ('<dtml-if n>y<dtml-else>no</dtml-if><dtml-call load><dtml-if n>Y<dtml-var n></dtml-if>', 'client-undefined'),
+    ('<dtml-var n missing=m>|<dtml-call load>|<dtml-var n missing=m>|<dtml-var "_.has_key(\'n\')">', 'client-undefined'),
+    ('<dtml-let q=n><dtml-call load><dtml-let r=n><dtml-var q><dtml-var r></dtml-let></dtml-let>', 'client'),
+]
+
+
+def run_dynamic():
+    from DocumentTemplate.DT_HTML import HTML
+    for i, (src, how) in enumerate(DYNAMIC):
+        _cur['test'] = 'dynamic-%d' % i
+        lazy = Lazy(n='client-n')
+        t = HTML(src, n='default-n') if how != 'client-undefined' else HTML(src)
+        try:
+            if how in ('client', 'client-undefined'):
+                t(lazy, {} if how == 'client-undefined' else {'n': 'mapping-n'})
+            elif how == 'tuple':
+                t((Lazy(z=1), lazy), {'n': 'mapping-n', 'load': lazy.load})
+            elif how == 'with':
+                t(None, {'n': 'mapping-n'}, o=lazy)
+            else:
+                t(None, {'n': 'mapping-n'}, l=[lazy, Lazy(n='second')])
+        except BaseException as e:  # noqa
+            _cur['test'] = 'dynamic-%d (raised %s)' % (i, type(e).__name__)
+
+
 def main(argv):
     sys.path.insert(0, os.path.dirname(os.path.dirname(os.path.abspath(__file__))))
     from harness import common, render
@@ -196,6 +254,7 @@ def main(argv):
             render.run_case(case, plan, sty=case.get('sty', 'dtml'))
         except BaseException as e:  # noqa
             _cur['test'] = 'case-%d (harness error %s)' % (i, type(e).__name__)
+    run_dynamic()
     dump(argv[2])
     return 0
 
